@@ -1927,6 +1927,17 @@ func (p *Parser) parseExpression(prec OpPrec) IExpr {
 		p.fail("expression")
 		return nil
 	}
+	if p.assumeArrowFunc {
+		switch left.(type) {
+		case *ArrayExpr, *ObjectExpr:
+			// the pattern may be a parameter of an arrow function, but not what follows it such as the default value in ([a] = [b]) => a
+			p.assumeArrowFunc = false
+			suffix := p.parseExpressionSuffix(left, prec, precLeft)
+			p.assumeArrowFunc = true
+			p.exprLevel--
+			return suffix
+		}
+	}
 	suffix := p.parseExpressionSuffix(left, prec, precLeft)
 	p.exprLevel--
 	return suffix
